@@ -222,7 +222,10 @@ def info_schema(ctx):
             for (e, op, v, g) in So.facts_at(bb):
                 if "Try>::branch)" in e:
                     continue  # `?`: everything after it is trivially control dependent on it
-                d = o.blocks[g]["term"]["discr"]
+                gt = o.blocks[g]["term"]
+                if gt["t"] != "switch":
+                    continue  # an imported fact (flag local, inlined helper's result): its guard block is where the value was set
+                d = gt["discr"]
                 if d.get("pl") and d["pl"]["l"] in D:
                     ctrl = True
             if fed or ctrl:
@@ -242,9 +245,20 @@ def info_schema(ctx):
         if m not in ("range", "foreign_key", "enum_values", "category", "nullable"):
             continue
         extra = []
+        fin = {b_ for b_, t_ in o.calls() if cname(prog, t_).endswith("ColumnBuilder::with_bitfield")}
+        domo = cfg.dominators(o)
         for (e, tr, g) in So.bool_facts_at(bb):
             if not isinstance(tr, bool):
                 continue
+            gt = o.blocks[g]["term"]
+            if gt["t"] != "switch":
+                continue  # imported with a flag local or an inlined helper's result, whose own test is in the list with its switch
+            if gt["t"] == "switch" and fin:
+                # a test whose other edge never gets to finish the column (it ends in an error return) decides whether open() fails,
+                # not whether this attribute is applied
+                others = [x for x in o.succs()[g] if not (x == bb or x in domo.get(bb, ()))]
+                if others and not any(fin & cfg.reachable(o, x) for x in others):
+                    continue
             if "Value::is_null(" in e and tr is False:
                 continue
             if m == "nullable" and "PartialEq" in e and "s:'Y'" in e and tr is True:
@@ -389,7 +403,7 @@ def table_cat(ctx):
     CAT = "internal::category::Category"
     vs = tables.enum_variants(prog, "msi", CAT)
     a = tables.enum_table(prog, prog.fn("msi::internal::category::Category::as_str"), CAT)
-    fs = tables.str_match_table(prog, prog.fn("msi::<internal::category::Category as std::str::FromStr>::from_str"))
+    fs = tables.str_match_table(prog, prog.fn("msi::<internal::category::Category as std::str::FromStr>::from_str"), want_adt="Category")
     back = {}
     for lit, d in fs:
         m = re.search(r"Category::(\w+)\{\}", str(d))
